@@ -117,7 +117,7 @@ def run(report: Report, tier, seed):
     report.trust("spec/progsem.py program descriptions (well-typed by construction)", "spec/avm.py")
     report.assume("no deductive obligations yet for this property: exception-freedom of NormalizeBlocks / addIncoming / validateTree is "
                   "explored by exhaustive small-scope enumeration of control-flow shapes (bounded stand-in), recursion depth is a resource bound")
-    run_contracts(report, [("contracts.c01_flatten", "FlattenBlocks", "O20.2")])
+    run_contracts(report, [("contracts.c01_flatten", "FlattenBlocks", "O20.2"), ("contracts.c01_sort", "SortBlocks", "O20.3")])
     from vf.core import use_repo
     use_repo()
     from . import ir_native
@@ -128,6 +128,8 @@ def run(report: Report, tier, seed):
                                   bound=f"all graphs of <= {nmax} blocks", cases=fc + sc, distinct_nontrivial=fc + sc, failures=len(ff) + len(sf)))
 
     def search(fn, obs):
+        if "sort" in fn:
+            return {"input": {"block_list": sf[0]}, "what": sf[0]["what"]} if sf else None
         return {"input": {"block_list": ff[0]}, "what": ff[0]["what"]} if ff else None
     report.settle_undecided(search)
     report.settle_refuted(search)
